@@ -22,6 +22,7 @@ import (
 //	longest   V.Longest()
 //	copy      values = append(values, V.Copy())
 //	twin      values = append(values, Compile(same pattern, same knobs))  (default mode)
+//	unmarshal V.UnmarshalText(V.MarshalText()): V becomes a newly compiled default-mode, default-configuration value in place
 //	posix     values = append(values, CompilePOSIX(pattern))             (only with default knobs)
 //	gc        every pool loses its content (+ a real runtime.GC when K>0)
 //	panic_cb  ReplaceAllFunc on V whose callback panics at the K-th match (recovered by the caller)
@@ -178,7 +179,11 @@ func genHistory(prop string, seed uint64, index int, tier string) *HScenario {
 				nvals++
 			}
 		case x < 98:
-			sc.Steps = append(sc.Steps, HStep{Kind: "wrap", V: v, Op: &Op{API: "FindIndex", H: h}, K: or.between(1, 3)})
+			if or.p(1, 4) {
+				sc.Steps = append(sc.Steps, HStep{Kind: "unmarshal", V: v})
+			} else {
+				sc.Steps = append(sc.Steps, HStep{Kind: "wrap", V: v, Op: &Op{API: "FindIndex", H: h}, K: or.between(1, 3)})
+			}
 		default:
 			n := or.between(2, 3)
 			var ops []Op
@@ -546,6 +551,17 @@ func runHistoryT(sc *HScenario, tr *traceReq) *HOutcome {
 				continue
 			}
 			vals = append(vals, &liveValue{re: c, longest: lv.longest}) // Copy recompiles with the default configuration
+		case "unmarshal":
+			// encoding.TextUnmarshaler round trip on a used value: the value is replaced in
+			// place by a newly compiled one (default configuration, default mode); nothing of
+			// its former life may show afterwards
+			txt, err := lv.re.MarshalText()
+			if err != nil || lv.re.UnmarshalText(txt) != nil {
+				fail(HViolation{Step: si, Kind: "result", What: fmt.Sprintf("MarshalText/UnmarshalText round trip failed: %v", err)})
+				continue
+			}
+			lv.longest = false
+			lv.knobs = Knobs{}
 		case "twin":
 			k := sc.Knobs
 			k.Longest = false
